@@ -121,6 +121,22 @@ theorem step_appendOne_err (s : State K) (p : Bool) (e : Err)
       simp at h; subst h; exact appendOne_err _ _ _ _ he
     · simp at h
 
+/-- if the reference series is long enough, a failing `appendOne` has not assigned anything -/
+theorem step_appendOne_fail_state (s : State K) (p : Bool) (e : Err)
+    (hr : 2 ≤ s.rx.length) (hy : s.ry ≠ []) (h : (step s (.appendOne p)).err = some e) :
+    (step s (.appendOne p)).state = s := by
+  have h2 : ∃ r, appendOne s.rx s.ry p = .ok r := by
+    unfold appendOne
+    rw [if_neg]
+    · exact ⟨_, rfl⟩
+    · intro hc
+      rcases hc with hc | hc
+      · omega
+      · exact hy (List.isEmpty_iff.mp hc)
+  obtain ⟨r, h2⟩ := h2
+  revert h; simp only [step, h2]
+  split <;> simp
+
 theorem step_truncV_fail (s : State K) (l r : K) (lr rr : Bool) (e : Err)
     (h : (step s (.truncV l r lr rr)).err = some e) : (step s (.truncV l r lr rr)).state = s := by
   revert h; simp only [step]; repeat' split
@@ -175,5 +191,476 @@ theorem step_fail_state (s : State K) (op : Op K) (hop : ∀ p, op ≠ .appendOn
   | interpN n m ext => exact step_interpN_fail s n m ext e h
   | interpX g m ext => exact step_interpX_fail s g m ext e h
   | _ => simp [step] at h
+
+/-! ## Rejections: the code paths that raise `ValueError` -/
+
+theorem truncateBounds_inverted (x : List K) (l r : K) (lr rr : Bool)
+    (h : (if rr then r * (x.getLastD 0 - x.headD 0) + x.headD 0 else r) ≤
+         (if lr then l * (x.getLastD 0 - x.headD 0) + x.headD 0 else l)) :
+    Process.truncateBounds x l r lr rr = .error .valueError := by
+  unfold Process.truncateBounds
+  simp only [bind, Except.bind, pure, Except.pure, throw, throwThe, MonadExceptOf.throw]
+  rw [if_pos h]
+
+theorem truncateS_inverted (x y : List K) (l r : K) (lr rr : Bool)
+    (h : (if rr then r * (x.getLastD 0 - x.headD 0) + x.headD 0 else r) ≤
+         (if lr then l * (x.getLastD 0 - x.headD 0) + x.headD 0 else l)) :
+    truncateS x y l r lr rr = .error .valueError := by
+  unfold truncateS
+  rw [truncateBounds_inverted x l r lr rr h]; rfl
+
+theorem interpolate_unknown (x y g : List K) (m : String) (ext : List K)
+    (h : Process.Method.ofString? m = none) :
+    Process.interpolate x y g m ext = .error .valueError := by
+  unfold Process.interpolate; rw [h]
+
+theorem find_unknown_strategy (st : String) (fill : Bool) (x q : List K)
+    (h : Search.Strategy.ofString? st = none) : Search.find st fill x q = .error .valueError := by
+  unfold Search.find; rw [h]
+
+theorem fixedPoints_unknown_strategy (x xref : List K) (st : String)
+    (h : Search.Strategy.ofString? st = none) :
+    fixedPoints x xref none none st = .error .valueError := by
+  unfold fixedPoints
+  simp only [find_unknown_strategy st true x xref h, bind, Except.bind]
+
+theorem fixedPoints_too_many_x (x xref v : List K) (fpi : Option (List ℕ)) (st : String)
+    (h : v.length > x.length) : fixedPoints x xref (some v) fpi st = .error .valueError := by
+  unfold fixedPoints
+  simp only [h, if_true, bind, Except.bind, throw, throwThe, MonadExceptOf.throw]
+
+theorem fixedPoints_too_many_i (x xref : List K) (fpx : Option (List K)) (v : List ℕ) (st : String)
+    (h : v.length > x.length) : fixedPoints x xref fpx (some v) st = .error .valueError := by
+  cases fpx with
+  | none =>
+    unfold fixedPoints
+    simp only [h, if_true, bind, Except.bind, pure, Except.pure, throw, throwThe, MonadExceptOf.throw]
+  | some w =>
+    by_cases hw : w.length > x.length
+    · exact fixedPoints_too_many_x x xref w _ st hw
+    · unfold fixedPoints
+      simp only [h, hw, if_true, if_false, bind, Except.bind, pure, Except.pure, throw, throwThe,
+        MonadExceptOf.throw]
+
+theorem matchRef_fp_error (pw : K → K) (x y xref yref : List K) (fpx : Option (List K))
+    (fpi : Option (List ℕ)) (st tg rf : String) (e : Err)
+    (h : fixedPoints x xref fpx fpi st = .error e) :
+    matchRef pw x y xref yref fpx fpi st tg rf = .error e := by
+  unfold matchRef
+  simp only [h, bind, Except.bind]
+
+theorem matchRef_unknown_ref (pw : K → K) (x y xref yref : List K) (fpx : Option (List K))
+    (fpi : Option (List ℕ)) (st tg rf : String) (fp : FixedPoints K)
+    (hfp : fixedPoints x xref fpx fpi st = .ok fp) (h : Rule.ofString? rf = none) :
+    matchRef pw x y xref yref fpx fpi st tg rf = .error .valueError := by
+  unfold matchRef
+  simp only [hfp, h, bind, Except.bind, throw, throwThe, MonadExceptOf.throw]
+
+theorem matchRef_unknown_target (pw : K → K) (x y xref yref : List K) (fpx : Option (List K))
+    (fpi : Option (List ℕ)) (st tg rf : String) (fp : FixedPoints K) (rr : Rule)
+    (hfp : fixedPoints x xref fpx fpi st = .ok fp) (hrr : Rule.ofString? rf = some rr)
+    (h : Rule.ofString? tg = none) (hw : refWindows rr xref yref fp ≠ []) :
+    matchRef pw x y xref yref fpx fpi st tg rf = .error .valueError := by
+  have hw' : (refWindows rr xref yref fp).isEmpty = false := by
+    cases hq : refWindows rr xref yref fp with
+    | nil => exact absurd hq hw
+    | cons a b => rfl
+  unfold refWindows at hw'
+  unfold matchRef
+  simp only [hfp, hrr, h, hw', bind, Except.bind, pure, Except.pure, throw, throwThe,
+    MonadExceptOf.throw]
+  rfl
+
+/-! ## Frame lemmas -/
+
+/-- operations that write the reference series -/
+def IsRefWriter : Op K → Prop
+  | .appendOne _ | .shiftX _ | .shiftY _ | .scaleX _ | .scaleY _ | .normX _ _ | .normY _ _
+  | .repeat _ | .truncV _ _ _ _ | .truncI _ _ | .restore => True
+  | _ => False
+
+/-- split a goal about `step s op` projections conjunct by conjunct -/
+macro "split_step" : tactic =>
+  `(tactic| (repeat' constructor) <;> (simp only [step]; repeat' split) <;> simp)
+
+theorem step_reshape_frame (s : State K) (op : Op K) (h : ¬ IsRefWriter op) :
+    (step s op).state.rx = s.rx ∧ (step s op).state.ry = s.ry ∧
+    (step s op).state.ox = s.ox ∧ (step s op).state.oy = s.oy := by
+  cases op with
+  | recreate st pw n aL aR bL bR => split_step
+  | recreateExt n ys => split_step
+  | integralMatch pw fpx fpi st tg rf => split_step
+  | interpN n m ext => split_step
+  | interpX g m ext => split_step
+  | smooth ext => simp [step]
+  | trendPoly cs nz => simp [step]
+  | noise d => simp [step]
+  | _ => exact absurd trivial h
+
+theorem step_original_frame (s : State K) (op : Op K) (hx : ∀ lo hi, op ≠ .normX lo hi)
+    (hy : ∀ lo hi, op ≠ .normY lo hi) :
+    (step s op).state.ox = s.ox ∧ (step s op).state.oy = s.oy := by
+  cases op with
+  | normX lo hi => exact absurd rfl (hx lo hi)
+  | normY lo hi => exact absurd rfl (hy lo hi)
+  | appendOne p => split_step
+  | truncV l r lr rr => split_step
+  | truncI a b => split_step
+  | recreate st pw n aL aR bL bR => split_step
+  | recreateExt n ys => split_step
+  | integralMatch pw fpx fpi st tg rf => split_step
+  | interpN n m ext => split_step
+  | interpX g m ext => split_step
+  | _ => simp [step]
+
+theorem step_caller (s : State K) (op : Op K) :
+    (step s op).state.callerX = s.callerX ∧ (step s op).state.callerY = s.callerY := by
+  cases op with
+  | appendOne p => split_step
+  | truncV l r lr rr => split_step
+  | truncI a b => split_step
+  | recreate st pw n aL aR bL bR => split_step
+  | recreateExt n ys => split_step
+  | integralMatch pw fpx fpi st tg rf => split_step
+  | interpN n m ext => split_step
+  | interpX g m ext => split_step
+  | _ => simp [step]
+
+theorem runOps_caller (s : State K) (ops : List (Op K)) :
+    (runOps s ops).state.callerX = s.callerX ∧ (runOps s ops).state.callerY = s.callerY := by
+  induction ops generalizing s with
+  | nil => simp [runOps]
+  | cons op ops ih =>
+    simp only [runOps]
+    split
+    · exact step_caller s op
+    · obtain ⟨h1, h2⟩ := ih (step s op).state
+      obtain ⟨h3, h4⟩ := step_caller s op
+      exact ⟨h1.trans h3, h2.trans h4⟩
+
+/-! ## The constructor -/
+
+theorem init_some_ok (x y : List K) (h : x.length = y.length) :
+    init (some x) y = .ok { x := x, y := y, rx := x, ry := y, ox := x, oy := y,
+                            callerX := x, callerY := y } := by
+  simp [init, h]
+
+theorem init_some_eq (x y : List K) (s₀ : State K) (h : init (some x) y = .ok s₀) :
+    x.length = y.length ∧
+    s₀ = { x := x, y := y, rx := x, ry := y, ox := x, oy := y, callerX := x, callerY := y } := by
+  by_cases hl : x.length = y.length
+  · rw [init_some_ok x y hl] at h
+    cases h; exact ⟨hl, rfl⟩
+  · simp [init, hl] at h
+
+theorem init_none_eq (y : List K) (s₀ : State K) (h : init none y = .ok s₀) :
+    s₀ = { x := ofFn y.length (fun i => (i : K)), y := y, rx := ofFn y.length (fun i => (i : K)),
+           ry := y, ox := ofFn y.length (fun i => (i : K)), oy := y, callerX := [], callerY := y } := by
+  simp only [init] at h
+  cases h; rfl
+
+/-! ## No step reads the caller's arrays -/
+
+/-- replace the caller's arrays -/
+@[reducible] def setCaller (s : State K) (cx cy : List K) : State K :=
+  { s with callerX := cx, callerY := cy }
+
+/-- `step` commutes with replacing the caller's arrays: no result depends on them -/
+theorem step_setCaller (s : State K) (cx cy : List K) (op : Op K) :
+    step (setCaller s cx cy) op = ⟨setCaller (step s op).state cx cy, (step s op).err⟩ := by
+  cases op with
+  | appendOne p =>
+    simp only [step, setCaller]
+    rcases appendOne s.x s.y p with e | ⟨x, y⟩
+    · rfl
+    · simp only []
+      rcases appendOne s.rx s.ry p with e | ⟨rx, ry⟩ <;> rfl
+  | truncV l r lr rr =>
+    simp only [step, setCaller]
+    rcases truncateS s.x s.y l r lr rr with e | ⟨x, y⟩
+    · rfl
+    · simp only []
+      rcases truncateS s.rx s.ry l r lr rr with e | ⟨rx, ry⟩ <;> rfl
+  | truncI a b =>
+    simp only [step, setCaller]
+    by_cases h1 : a < 0
+    · simp only [if_pos h1]; rfl
+    · simp only [if_neg h1]
+      by_cases h2 : b.getD s.x.length > s.x.length
+      · simp only [if_pos h2]; rfl
+      · simp only [if_neg h2]; rfl
+  | recreate st pw n aL aR bL bR =>
+    simp only [step, setCaller]
+    by_cases h1 : n < 2
+    · simp only [if_pos h1]; rfl
+    · simp only [if_neg h1]
+      rcases Rfa.Strategy.ofString? st with _ | st'
+      · rfl
+      · simp only []
+        rcases Rfa.run st' pw (fnOf s.x) (fnOf s.y) s.x.length n.toNat _ with e | ⟨fx, fy⟩ <;> rfl
+  | recreateExt n ys =>
+    simp only [step, setCaller]
+    by_cases h1 : n < 2
+    · simp only [if_pos h1]; rfl
+    · simp only [if_neg h1]; rfl
+  | integralMatch pw fpx fpi st tg rf =>
+    simp only [step, setCaller]
+    rcases matchRef pw s.x s.y s.rx s.ry fpx fpi st tg rf with e | _ | z <;> rfl
+  | interpN n m ext =>
+    simp only [step, setCaller]
+    rcases Process.interpolate s.x s.y _ m ext with e | z <;> rfl
+  | interpX g m ext =>
+    simp only [step, setCaller]
+    by_cases h1 : g.headD 0 ≠ s.x.headD 0 ∨ g.getLastD 0 ≠ s.x.getLastD 0
+    · simp only [if_pos h1]; rfl
+    · simp only [if_neg h1]
+      rcases Process.interpolate s.x s.y g m ext with e | z <;> rfl
+  | _ => rfl
+
+/-! ## Preservation lemmas, one per series-level operation -/
+
+theorem pairwise_map_add (x : List K) (d : K) (h : x.Pairwise (· < ·)) :
+    (x.map (· + d)).Pairwise (· < ·) := by
+  rw [List.pairwise_map]
+  exact h.imp (fun hab => by linarith)
+
+theorem pairwise_map_mul (x : List K) (c : K) (hc : 0 < c) (h : x.Pairwise (· < ·)) :
+    (x.map (· * c)).Pairwise (· < ·) := by
+  rw [List.pairwise_map]
+  exact h.imp (fun hab => mul_lt_mul_of_pos_right hab hc)
+
+/-- `append_one_sample` on a strictly increasing series of at least two samples -/
+theorem appendOne_wf (x y : List K) (p : Bool) (hx : x.Pairwise (· < ·)) (hl : 2 ≤ x.length)
+    (hxy : x.length = y.length) :
+    ∃ x' y', appendOne x y p = .ok (x', y') ∧ x'.length = x.length + 1 ∧
+      y'.length = y.length + 1 ∧ x'.Pairwise (· < ·) := by
+  refine ⟨ofFn (x.length + 1) (appendOneX (fnOf x) x.length),
+    ofFn (y.length + 1) (appendOneY (fnOf y) y.length p), ?_, ?_, ?_, ?_⟩
+  · unfold appendOne
+    rw [if_neg]
+    intro hc
+    rcases hc with hc | hc
+    · omega
+    · rw [List.isEmpty_iff] at hc; rw [hc, List.length_nil] at hxy; omega
+  · simp
+  · simp
+  · rw [pairwise_ofFn_iff]
+    exact C17.appendOne_strictIncr (fnOf x) x.length hl (strictIncr_fnOf x hx)
+
+theorem normalizeS_length (a : List K) (lo hi : K) : (normalizeS a lo hi).length = a.length := by
+  simp [normalizeS]
+
+/-- normalising strictly increasing abscissae keeps them strictly increasing -/
+theorem normalizeS_strictIncr (a : List K) (lo hi : K) (ha : a.Pairwise (· < ·))
+    (hl : 2 ≤ a.length) (hlh : lo < hi) : (normalizeS a lo hi).Pairwise (· < ·) := by
+  unfold normalizeS
+  rw [pairwise_ofFn_iff]
+  exact C14.normalize_strictIncr (fnOf a) a.length lo hi (strictIncr_fnOf a ha) hlh hl
+
+/-- the denominator of `normalize` on strictly increasing abscissae is positive -/
+theorem normalize_denom_pos (a : List K) (ha : a.Pairwise (· < ·)) (hl : 2 ≤ a.length) :
+    0 < maxTo (fnOf a) (a.length - 1) - minTo (fnOf a) (a.length - 1) := by
+  have h := strictIncr_fnOf a ha
+  rw [C14.minTo_of_strictIncr _ _ h, C14.maxTo_of_strictIncr _ _ h]
+  exact sub_pos.mpr (strictIncr_lt h 0 (a.length - 1) (by omega) le_rfl)
+
+/-- … and on ordinates that are not all equal -/
+theorem normalize_denom_pos_of_ne (a : List K) (i j : ℕ) (hi : i < a.length) (hj : j < a.length)
+    (hne : a[i] ≠ a[j]) :
+    0 < maxTo (fnOf a) (a.length - 1) - minTo (fnOf a) (a.length - 1) := by
+  have := C14.minTo_lt_maxTo_of_ne (fnOf a) (a.length - 1) i j (by omega) (by omega)
+    (by rw [fnOf_of_lt a i hi, fnOf_of_lt a j hj]; exact hne)
+  exact sub_pos.mpr this
+
+theorem repeatS_length (x y : List K) (r : ℕ) :
+    (repeatS x y r).1.length = x.length * r ∧ (repeatS x y r).2.length = y.length * r := by
+  simp [repeatS, Process.repeatLen]
+
+theorem repeatS_wf (x y : List K) (r : ℕ) (hx : x.Pairwise (· < ·)) (hl : 2 ≤ x.length) :
+    (repeatS x y r).1.Pairwise (· < ·) := by
+  unfold repeatS
+  simp only [Process.repeatLen]
+  rw [pairwise_ofFn_iff]
+  exact C12.repeat_strictIncr (fnOf x) x.length r hl (strictIncr_fnOf x hx)
+
+/-- a contiguous part of a strictly increasing list is strictly increasing -/
+theorem drop_take_pairwise (x : List K) (a n : ℕ) (hx : x.Pairwise (· < ·)) :
+    ((x.drop a).take n).Pairwise (· < ·) :=
+  hx.sublist (((List.take_sublist _ _).trans (List.drop_sublist _ _)))
+
+theorem truncateS_eq (x y : List K) (l r : K) (lr rr : Bool) (a b : ℕ)
+    (h : Process.truncateBounds x l r lr rr = .ok (a, b)) :
+    truncateS x y l r lr rr = .ok ((x.drop a).take (b - a), (y.drop a).take (b - a)) := by
+  unfold truncateS; rw [h]; rfl
+
+theorem truncateS_ok (x y : List K) (l r : K) (lr rr : Bool) (x' y' : List K)
+    (h : truncateS x y l r lr rr = .ok (x', y')) :
+    ∃ a b, Process.truncateBounds x l r lr rr = .ok (a, b) ∧
+      x' = (x.drop a).take (b - a) ∧ y' = (y.drop a).take (b - a) := by
+  unfold truncateS at h
+  cases hb : Process.truncateBounds x l r lr rr with
+  | error e => rw [hb] at h; cases h
+  | ok ab =>
+    obtain ⟨a, b⟩ := ab
+    rw [hb] at h
+    simp only [bind, Except.bind, pure, Except.pure] at h
+    cases h
+    exact ⟨a, b, rfl, rfl, rfl⟩
+
+theorem truncateS_sublist (x y : List K) (l r : K) (lr rr : Bool) (x' y' : List K)
+    (hx : x.Pairwise (· < ·)) (h : truncateS x y l r lr rr = .ok (x', y')) :
+    x'.Pairwise (· < ·) := by
+  obtain ⟨a, b, _, rfl, _⟩ := truncateS_ok x y l r lr rr x' y' h
+  exact drop_take_pairwise x a (b - a) hx
+
+theorem length_drop_take (x : List K) (a n : ℕ) :
+    ((x.drop a).take n).length = min n (x.length - a) := by
+  simp
+
+/-- `a[start:stop]` for in-range bounds -/
+theorem pySlice_eq (a : List K) (start stop : ℤ) (h0 : 0 ≤ start) (h1 : start ≤ stop)
+    (h2 : stop ≤ a.length) :
+    pySlice a start stop = (a.drop start.toNat).take (stop.toNat - start.toNat) := by
+  unfold pySlice
+  simp only
+  rw [if_neg (by omega), if_neg (by omega)]
+
+theorem pySlice_sublist (a : List K) (start stop : ℤ) (ha : a.Pairwise (· < ·)) :
+    (pySlice a start stop).Pairwise (· < ·) := by
+  unfold pySlice
+  exact drop_take_pairwise a _ _ ha
+
+theorem pySlice_length (a : List K) (start stop : ℤ) (h0 : 0 ≤ start) (h1 : start ≤ stop)
+    (h2 : stop ≤ a.length) : (pySlice a start stop).length = stop.toNat - start.toNat := by
+  rw [pySlice_eq a start stop h0 h1 h2, length_drop_take]
+  omega
+
+/-! ### `np.linspace` -/
+
+theorem linspaceAt_first (a b : K) (n : ℕ) (hn : 2 ≤ n) : Process.linspaceAt a b n 0 = a := by
+  unfold Process.linspaceAt
+  rw [if_neg (by omega)]
+  simp
+
+theorem linspaceAt_last (a b : K) (n : ℕ) (hn : 2 ≤ n) : Process.linspaceAt a b n (n - 1) = b := by
+  unfold Process.linspaceAt
+  rw [if_pos ⟨by omega, by omega⟩]
+
+theorem linspaceAt_inner (a b : K) (n i : ℕ) (hi : i + 1 < n) :
+    Process.linspaceAt a b n i = a + (i : K) * ((b - a) / ((n - 1 : ℕ) : K)) := by
+  unfold Process.linspaceAt
+  rw [if_neg (by omega)]
+
+theorem linspace_strictIncr (a b : K) (n : ℕ) (hab : a < b) (hn : 2 ≤ n) :
+    StrictIncr (n - 1) (Process.linspaceAt a b n) := by
+  obtain ⟨k, rfl⟩ : ∃ k, n = k + 1 := ⟨n - 1, by omega⟩
+  have hk : (0 : K) < (k : K) := by
+    have : 0 < k := by omega
+    exact_mod_cast this
+  have hd : 0 < (b - a) / (k : K) := div_pos (sub_pos.mpr hab) hk
+  intro i hi
+  rw [linspaceAt_inner a b (k + 1) i (by omega)]
+  simp only [Nat.add_sub_cancel] at hi ⊢
+  rcases Nat.lt_or_ge (i + 1 + 1) (k + 1) with h1 | h1
+  · rw [linspaceAt_inner a b (k + 1) (i + 1) h1]
+    simp only [Nat.add_sub_cancel]
+    push_cast
+    nlinarith
+  · have e : i + 1 = k + 1 - 1 := by omega
+    rw [e, linspaceAt_last a b (k + 1) hn]
+    have hik : (i : K) < (k : K) := by exact_mod_cast hi
+    have : (i : K) * ((b - a) / (k : K)) < (k : K) * ((b - a) / (k : K)) :=
+      mul_lt_mul_of_pos_right hik hd
+    rw [mul_div_cancel₀ _ (ne_of_gt hk)] at this
+    linarith
+
+/-- `np.linspace(a, b, n)` for `a < b`, `2 ≤ n`: strictly increasing from `a` to `b` -/
+theorem linspace_wf (a b : K) (n : ℕ) (hab : a < b) (hn : 2 ≤ n) :
+    (ofFn n (Process.linspaceAt a b n)).Pairwise (· < ·) ∧
+    (ofFn n (Process.linspaceAt a b n)).headD 0 = a ∧
+    (ofFn n (Process.linspaceAt a b n)).getLastD 0 = b := by
+  refine ⟨(pairwise_ofFn_iff _ _).mpr (linspace_strictIncr a b n hab hn), ?_, ?_⟩
+  · rw [headD_eq_fnOf, fnOf_ofFn _ _ _ (by omega), linspaceAt_first a b n hn]
+  · rw [getLastD_eq_fnOf, length_ofFn, fnOf_ofFn _ _ _ (by omega), linspaceAt_last a b n hn]
+
+/-! ### recreate -/
+
+/-- the abscissae every recreate strategy returns are strictly increasing (`C04.rfa_strictIncr`) -/
+theorem recreate_wf (x : List K) (n : ℕ) (hx : x.Pairwise (· < ·)) (hl : 2 ≤ x.length) (hn : 2 ≤ n) :
+    (ofFn (Rfa.outLen x.length n) (Rfa.outX (fnOf x) x.length n)).Pairwise (· < ·) ∧
+    2 ≤ Rfa.outLen x.length n := by
+  constructor
+  · rw [pairwise_ofFn_iff]
+    exact C04.rfa_strictIncr hn hl (strictIncr_fnOf x hx)
+  · unfold Rfa.outLen
+    have : 1 * 2 ≤ (x.length - 1) * n := Nat.mul_le_mul (by omega) hn
+    omega
+
+theorem rfa_run_ok (st : Rfa.Strategy) (pw : K → K) (x y : ℕ → K) (m n : ℕ) (w : Rfa.Windows)
+    (hn : 2 ≤ n) : Rfa.run st pw x y m n w = .ok (Rfa.outX x m n, Rfa.outY st pw x y m n w) :=
+  C04.rfa_accept st pw x y m n w hn
+
+/-! ### integral matching -/
+
+theorem loopA_size (r : Rule) (pw : K → K) (x : ℕ → K) :
+    ∀ (ws : List (ℕ × ℕ × K)) (y : Array K), (loopA r pw x ws y).size = y.size := by
+  intro ws
+  induction ws with
+  | nil => intro y; rfl
+  | cons w ws ih =>
+    intro y
+    obtain ⟨s, e, I⟩ := w
+    simp only [loopA]
+    rw [ih, tab_size]
+
+/-- integral matching returns as many ordinates as it was given -/
+theorem match_length (pw : K → K) (x y xref yref : List K) (fpx : Option (List K))
+    (fpi : Option (List ℕ)) (st tg rf : String) (z : List K)
+    (h : matchRef pw x y xref yref fpx fpi st tg rf = .ok (some z)) : z.length = y.length := by
+  unfold matchRef at h
+  simp only [bind, Except.bind, pure, Except.pure, throw, throwThe, MonadExceptOf.throw] at h
+  generalize fixedPoints x xref fpx fpi st = q at h
+  rcases q with e | fp
+  · cases h
+  · simp only [] at h
+    generalize Rule.ofString? rf = q at h
+    rcases q with _ | rr
+    · cases h
+    · simp only [] at h
+      split at h
+      · cases h; rfl
+      · generalize Rule.ofString? tg = q at h
+        rcases q with _ | tr
+        · cases h
+        · simp only [] at h
+          split at h
+          · cases h
+            rw [Array.length_toList, loopA_size, List.size_toArray]
+          · cases h
+
+/-! ### interpolation -/
+
+theorem interpConstant_length (x y g : List K) (left : Option K) (hx : x.Pairwise (· < ·))
+    (hx0 : x ≠ []) (hg : g.Pairwise (· ≤ ·)) (hg0 : g ≠ []) :
+    ∃ z, Process.interpConstant x y g left = .ok z ∧ z.length = g.length := by
+  unfold Process.interpConstant
+  rw [C10.findLower_spec true x g hx hg hx0 hg0]
+  refine ⟨_, rfl, ?_⟩
+  simp
+
+/-- `interpolate` returns one ordinate per grid point (for `'cubic'`/`'spline'`: as many as the
+external routine returned) -/
+theorem interpolate_length (x y g : List K) (m : Process.Method) (ms : String) (ext : List K)
+    (hm : Process.Method.ofString? ms = some m)
+    (hx : x.Pairwise (· < ·)) (hx0 : x ≠ []) (hg : g.Pairwise (· < ·)) (hg0 : g ≠ [])
+    (hext : m = .cubic ∨ m = .spline → ext.length = g.length) :
+    ∃ z, Process.interpolate x y g ms ext = .ok z ∧ z.length = g.length := by
+  unfold Process.interpolate
+  rw [hm]
+  cases m with
+  | linear => exact ⟨_, rfl, by simp⟩
+  | constant => exact interpConstant_length x y g none hx hx0 (hg.imp le_of_lt) hg0
+  | cubic => exact ⟨_, rfl, hext (Or.inl rfl)⟩
+  | spline => exact ⟨_, rfl, hext (Or.inr rfl)⟩
 
 end TWV.Weaver
